@@ -645,7 +645,7 @@ pub fn run_c16(ctx: &Ctx, rep: &mut Report) {
         },
         |ctx, d: &Doc, acc| check_roundtrip(ctx, d, acc, true),
     );
-    let n = ctx.cases(120_000, 3_000_000);
+    let n = ctx.cases(120_000, 10_000_000);
     run_prop(
         ctx,
         rep,
@@ -810,7 +810,7 @@ pub fn run_c18(ctx: &Ctx, rep: &mut Report) {
         directed,
         check_faults,
     );
-    let n = ctx.cases(4_000, 60_000);
+    let n = ctx.cases(4_000, 200_000);
     run_prop(
         ctx,
         rep,
